@@ -4,7 +4,7 @@ is transparent to the rules.  Only simple shapes are inlined; anything else stay
 
 A helper H (method of class C, or module-level function) is inlined at a call site when
   * H's qualified name is not in the inventory (it was introduced after the rules were written),
-  * H is not a generator, has no decorators, no *args/**kwargs, no nested defs,
+  * H is not a generator, has no decorators, no *args/**kwargs, no nested defs (lambdas are fine),
   * H is not overridden in a package subclass,
   * its body can be brought into single-exit form (returns only as the last statement or in
     `if c: return x` guard clauses - not inside loops/try/with),
@@ -133,7 +133,7 @@ def _stores(fn):
 
 def expand(fn, call, is_method, uid):
     """-> (prefix statements, result expression or None)"""
-    if fn.decorator_list or _has(fn, (ast.Yield, ast.YieldFrom, ast.Await, ast.Lambda)) or \
+    if fn.decorator_list or _has(fn, (ast.Yield, ast.YieldFrom, ast.Await)) or \
             any(isinstance(n, (ast.FunctionDef, ast.AsyncFunctionDef, ast.ClassDef)) and n is not fn for n in ast.walk(fn)):
         raise NoInline('shape')
     bound = _bind(fn, call, is_method)
